@@ -12,7 +12,7 @@ import (
 // C29: OSM data maps to features by fixed rules.
 //
 // Three nodes, two ways (each open over nodes 1,2 or closed over 1,2,3,1; IDs
-// symbolic 2-bit values), 1..2 relations (multipolygon or not; symbolic 2-bit
+// symbolic 2-bit values; the first optionally carrying an OSM tag with key "path"), 1..2 relations (multipolygon or not; symbolic 2-bit
 // IDs, so a relation may share its number with a way; 1..2 members of any
 // element type with symbolic 2-bit refs and a role among outer/inner/empty)
 // are read through NewFeatureSourceFromPBF + pbfSource.Read and the emitted
@@ -57,6 +57,10 @@ func VH_C29_OSMMapping() {
 		}
 		closed[i] = vBool("closed")
 		w := osm.Way{ID: osm.WayID(wayID[i]), Tags: osm.Tags{{Key: "highway", Value: "h"}, {Key: "name", Value: "n"}}}
+		if i == 0 && vBool("pathkey") {
+			// an OSM tag whose key collides with the tag b6 keeps geometry in
+			w.Tags = append(w.Tags, osm.Tag{Key: b6.PathTag, Value: "yes"})
+		}
 		if closed[i] {
 			w.Nodes = []osm.NodeID{1, 2, 3, 1}
 		} else {
@@ -147,8 +151,10 @@ func VH_C29_OSMMapping() {
 		}
 		if closed[i] {
 			vAssert(len(p.AllTags()) == 1, "the path of a closed way keeps no tags of its own")
+			vAssert(p.GeometryLen() == len(want), "a path runs over the way's nodes")
 		} else {
 			vAssert(p.Get("#highway").IsValid() && p.Get("name").IsValid(), "an open way's path carries the way's tags")
+			vAssert(p.GeometryLen() == len(want), "a path runs over the way's nodes")
 		}
 	}
 	// areas: closed ways and complete multipolygons
